@@ -286,11 +286,14 @@ func (s *Sim) Run(spec *RunSpec) *RunResult {
 			for j := range calls {
 				Yield(0)
 				callBegin(t)
-				s0 := taskSteps(t)
+				// steps of ALL tasks while this call was in flight: in the single-caller
+				// sequential pass that is the caller's own work plus the work of the
+				// goroutines the library started for it (the fault-free cost of the call)
+				s0 := readSteps()
 				// every call gets its own freshly allocated copy of the input, like a
 				// request handler does: the copy becomes garbage when the call returns
 				out[j], raws[j] = exec(calls[j].API, cloneString(calls[j].Input))
-				cs[j] = taskSteps(t) - s0
+				cs[j] = readSteps() - s0
 				callEnd(t)
 			}
 		})
